@@ -124,6 +124,10 @@ Definition new_gen (s : sstate) (te : option nat) (pv : list rmove) (ply depth :
   {| g_te := te; g_tec := option_map (fun i => e_m (nth i (table s) entry0)) te; g_pv := pv; g_r := move0; g_ms := None; g_i := 0;
      g_ply := ply; g_depth := depth; g_p := p |}.
 
+(* the fuel of every loop over the generator: the number of generated moves plus the hint slots (the Go loops have no bound;
+   with this fuel the model's loops never stop early: SearchGen.gfuel_ok) *)
+Definition gfuel (g : mgen) : nat := (length (match g_ms g with Some ms => ms | None => all_moves (g_p g) end) + 8)%nat.
+
 Fixpoint mg_next (fuel : nat) (s : sstate) (g : mgen) : mgen * option (rmove * position) :=
   match fuel with O => (g, None) | S f =>
     let try (g : mgen) (m : rmove) := match try_move (g_p g) m with Some q => (g, Some (m, q)) | None => mg_next f s g end in
@@ -233,7 +237,7 @@ Fixpoint mc_loop (rec : rec_t) (k : nat) (ply depth a : Z) (cut : bool) (m : rmo
     let '(s, (_, v)) := rec true s child (ply + 1) (depth - 1 - 2) [] (- a - 1) 0 (negb cut) in
     let cuts := if a <? - v then cuts + 1 else cuts in
     if (a <? - v) && (3 <=? cuts) then (bump s (st_add 0 0 0 0 0 0 0 0 0 0 1), g, true) else
-    let '(g', nx) := mg_next 700 s g in
+    let '(g', nx) := mg_next (gfuel g) s g in
     match nx with Some (_, c') => mc_loop rec k' ply depth a cut m s g' c' (i + 1) cuts | None => (s, g', false) end
   end.
 
@@ -241,7 +245,7 @@ Fixpoint mc_loop (rec : rec_t) (k : nat) (ply depth a : Z) (cut : bool) (m : rmo
 Fixpoint zw_loop (rec : rec_t) (k : nat) (ply depth a : Z) (cut : bool) (s : sstate) (g : mgen) (i : Z) (best : list rmove)
   : sstate * list rmove * bool * bool :=
   match k with O => (s, best, false, false) | S k' =>
-    let '(g, nx) := mg_next 700 s g in
+    let '(g, nx) := mg_next (gfuel g) s g in
     match nx with
     | None => (s, best, false, false)
     | Some (m, child) =>
@@ -268,7 +272,7 @@ Definition pv_child (rec : rec_t) (s : sstate) (child : position) (ply depth : Z
 Fixpoint pv_loop (rec : rec_t) (k : nat) (ply depth b : Z) (s : sstate) (g : mgen) (i : Z) (best : list rmove) (a : Z) (improved : bool)
   : sstate * list rmove * Z * bool * bool :=
   match k with O => (s, best, a, improved, false) | S k' =>
-    let '(g, nx) := mg_next 700 s g in
+    let '(g, nx) := mg_next (gfuel g) s g in
     match nx with
     | None => (s, best, a, improved, false)
     | Some (m, child) =>
@@ -308,7 +312,7 @@ Definition pv_store (s : sstate) (p : position) (depth : Z) (best : list rmove) 
 Definition zw_tail (rec : rec_t) (s : sstate) (g : mgen) (p : position) (ply depth a : Z) (cut : bool) : sres :=
   let g := set_i g 0 in
   let best0 := firstn 1 (znth (fpv s) ply []) in
-  let '(s, best, didcut, aborted) := zw_loop rec 700%nat ply depth a cut s g 0 best0 in
+  let '(s, best, didcut, aborted) := zw_loop rec (gfuel g) ply depth a cut s g 0 best0 in
   if aborted then (s, ([], 0)) else
   (zw_store s p depth best a didcut, (best, if didcut then a + 1 else a)).
 
@@ -316,7 +320,7 @@ Definition zw_tail (rec : rec_t) (s : sstate) (g : mgen) (p : position) (ply dep
 Definition zw_mc (rec : rec_t) (s : sstate) (g0 : mgen) (p : position) (ply depth a : Z) (cut : bool) : sres :=
   if c_multicut cfg && cut && (3 <? depth) then
     let s := bump s (st_add 0 0 0 0 0 0 0 0 0 1 0) in
-    let '(g1, first) := mg_next 700 s g0 in
+    let '(g1, first) := mg_next (gfuel g0) s g0 in
     match first with
     | None => zw_tail rec s g1 p ply depth a cut
     | Some (m, child0) =>
@@ -362,7 +366,7 @@ Definition pv_node (rec : rec_t) (s : sstate) (te : option nat) (p : position) (
   let arr0 := znth (fpv s) ply [] in
   let best0 := match pv with [] => firstn 1 arr0 | _ => pv end in
   let s := set_fpv s ply (set_prefix arr0 best0) in
-  let '(s, best, a', improved, aborted) := pv_loop rec 700%nat ply depth b s g0 0 best0 a false in
+  let '(s, best, a', improved, aborted) := pv_loop rec (gfuel g0) ply depth b s g0 0 best0 a false in
   if aborted then (s, ([], 0)) else
   (pv_store s p depth best a' b improved, (best, a')).
 
@@ -442,7 +446,7 @@ Definition analyze_all_gen (s0 : sstate) (p : position) : sstate * (list (list r
     let '(s, out) :=
       (fix loop (k : nat) (s : sstate) (g : mgen) (out : list (list rmove)) : sstate * list (list rmove) :=
          match k with O => (s, out) | S k' =>
-           let '(g, nx) := mg_next 700 s g in
+           let '(g, nx) := mg_next (gfuel g) s g in
            match nx with
            | None => (s, out)
            | Some (m, child) =>
@@ -453,7 +457,7 @@ Definition analyze_all_gen (s0 : sstate) (p : position) : sstate * (list (list r
              else if move_equal m pm then loop k' s g out
              else loop k' s g (out ++ [m :: ms])
            end
-         end) 700%nat s g0 [pv] in
+         end) (gfuel g0) s g0 [pv] in
     (s, (out, v, d, canc))
   end.
 End Srch.
